@@ -541,6 +541,10 @@ func (w *writer) expr(e *Expr) {
 		}
 		w.plant(e.Site)
 		w.s(e.Site.Name)
+		if w.r.Chance(1, 12) {
+			// blanks or a comment between the callee identifier and its parenthesis
+			w.s(w.r.Pick([]string{" ", "  ", " /* c */ ", "\t"}))
+		}
 		w.args(e.Args)
 	case "new":
 		w.s("new ")
@@ -548,7 +552,11 @@ func (w *writer) expr(e *Expr) {
 		w.s(e.Site.Name)
 		w.args(e.Args)
 	case "lambda":
-		w.s(e.LambdaParam + " -> ")
+		if e.LambdaParamType != "" {
+			w.s("(" + e.LambdaParamType + " " + e.LambdaParam + ") -> ")
+		} else {
+			w.s(e.LambdaParam + " -> ")
+		}
 		if e.LambdaBody != nil {
 			w.expr(e.LambdaBody)
 		} else {
